@@ -10,10 +10,58 @@ mod ops;
 mod ops_lex;
 mod ops_json;
 mod ops_hooks;
+mod ops_err;
+/// location (file:line:col) of the last panic, recorded by the panic hook
+static LAST_PANIC_AT: std::sync::Mutex<Option<String>> = std::sync::Mutex::new(None);
+/// innermost prqlc / prqlc_parser function on the stack of the last panic (from the symbol table; cached per location)
+static LAST_PANIC_FN: std::sync::Mutex<Option<String>> = std::sync::Mutex::new(None);
+static PANIC_FN_CACHE: std::sync::Mutex<Vec<(String, String)>> = std::sync::Mutex::new(Vec::new());
+fn innermost_prqlc_frame() -> String {
+    let bt = std::backtrace::Backtrace::force_capture().to_string();
+    for line in bt.lines() {
+        let l = line.trim();
+        let Some((n, rest)) = l.split_once(": ") else { continue };
+        if n.parse::<u32>().is_err() {
+            continue;
+        }
+        if rest.contains("prqlc::") || rest.contains("prqlc_parser::") {
+            // drop the hash suffix
+            let mut f = rest.to_string();
+            if let Some(i) = f.rfind("::h") {
+                if f.len() - i == 19 {
+                    f.truncate(i);
+                }
+            }
+            return f;
+        }
+    }
+    "?".to_string()
+}
 
 fn main() {
     // silence the default panic message; panics are reported in the answer
-    std::panic::set_hook(Box::new(|_| {}));
+    std::panic::set_hook(Box::new(|info| {
+        let at = info.location().map(|l| format!("{}:{}:{}", l.file(), l.line(), l.column()));
+        let key = at.clone().unwrap_or_default();
+        let cached = PANIC_FN_CACHE.lock().ok().and_then(|c| c.iter().find(|(k, _)| *k == key).map(|(_, v)| v.clone()));
+        let f = match cached {
+            // library locations (slice index, unwrap in core, …) are shared by many call sites: never cached
+            Some(f) if key.starts_with("/repo/") => f,
+            _ => {
+                let f = innermost_prqlc_frame();
+                if let Ok(mut c) = PANIC_FN_CACHE.lock() {
+                    c.push((key, f.clone()));
+                }
+                f
+            }
+        };
+        if let Ok(mut g) = LAST_PANIC_FN.lock() {
+            *g = Some(f);
+        }
+        if let Ok(mut g) = LAST_PANIC_AT.lock() {
+            *g = at;
+        }
+    }));
     let stdin = std::io::stdin();
     let stdout = std::io::stdout();
     let mut out = std::io::BufWriter::new(stdout.lock());
@@ -32,8 +80,9 @@ fn main() {
                 continue;
             }
         };
+        let t0 = std::time::Instant::now();
         let res = catch_unwind(AssertUnwindSafe(|| ops::dispatch(&req)));
-        let ans = match res {
+        let mut ans = match res {
             Ok(v) => v,
             Err(p) => {
                 let msg = if let Some(s) = p.downcast_ref::<String>() {
@@ -43,9 +92,27 @@ fn main() {
                 } else {
                     "?".to_string()
                 };
-                json!({"panic": msg})
+                let at = LAST_PANIC_AT.lock().ok().and_then(|mut g| g.take());
+                let f = LAST_PANIC_FN.lock().ok().and_then(|mut g| g.take());
+                json!({"panic": msg, "at": at, "fn": f})
             }
         };
+        // opt-in wall time of this request (microseconds)
+        if req.get("_time").and_then(|v| v.as_bool()).unwrap_or(false) {
+            if let Some(o) = ans.as_object_mut() {
+                o.insert("_us".to_string(), json!(t0.elapsed().as_micros() as u64));
+                // CPU time of the whole process so far (user + system), from /proc/self/stat, in ms (100 Hz ticks)
+                if let Ok(st) = std::fs::read_to_string("/proc/self/stat") {
+                    if let Some(rest) = st.rsplit_once(')').map(|x| x.1) {
+                        let f: Vec<&str> = rest.split_whitespace().collect();
+                        if f.len() > 12 {
+                            let ticks = f[11].parse::<u64>().unwrap_or(0) + f[12].parse::<u64>().unwrap_or(0);
+                            o.insert("_cpu_ms".to_string(), json!(ticks * 10));
+                        }
+                    }
+                }
+            }
+        }
         writeln!(out, "{}", ans).unwrap();
         out.flush().unwrap();
     }
